@@ -346,6 +346,19 @@ func (LocErr) Error() string { return "" }
 type LocCtx interface{ pctx.Context }
 type LocFn func(int) string
 
+// methods that mention the type parameters: embedded as LocG[X] / *LocPair[K, V] they are promoted
+// with the type ARGUMENTS in their signatures
+func (g LocG[T]) Value() T                       { return g.V }
+func (g *LocG[T]) SetValue(v T, more ...T) error { return nil }
+func (p LocPair[K, V]) Lookup(key K) (V, bool)   { return p.V, false }
+func (p *LocPair[K, V]) Each(f func(K, V) bool)  {}
+
+// a defined type that is not a struct, with methods (embeddable)
+type LocInts []int
+
+func (l LocInts) Sum() int    { return len(l) }
+func (l *LocInts) Push(v int) {}
+
 const LocSize = 3
 `
 
@@ -418,6 +431,10 @@ type I interface {
 	Close() error
 }
 type G[X any] struct{ V X }
+
+func (g G[X]) Unwrap() X                          { return g.V }
+func (g *G[X]) Put(x X, at map[string]X) (X, error) { return x, nil }
+
 type Err struct{}
 
 // interfaces that embed interfaces with overlapping (identical) methods: a diamond
@@ -1170,7 +1187,14 @@ func main() {
 	n := flag.Int("n", 40, "number of random programs")
 	work := flag.String("work", "", "directory for the scratch farm module")
 	progsFile := flag.String("progs", "", "JSON list of program descriptions (mode progs)")
+	extraNames := flag.String("names", "", "comma-separated parameter names added to the user-name pool (from literals of the source under test)")
 	flag.Parse()
+	for _, n := range strings.Split(*extraNames, ",") {
+		if n != "" {
+			// twice, so that they are drawn as often as the rest of the pool together would suggest
+			trickyParamNames = append(trickyParamNames, n, n)
+		}
+	}
 	if *work == "" {
 		d, err := os.MkdirTemp("", "c19farm-")
 		if err != nil {
